@@ -34,7 +34,7 @@ func (p *vfCountProc) Process(in, out *FProtocol) error {
 	out.Transport().Write([]byte{byte(id)})
 	return nil
 }
-func (p *vfCountProc) AddMiddleware(ServiceMiddleware)            {}
+func (p *vfCountProc) AddMiddleware(ServiceMiddleware)           {}
 func (p *vfCountProc) Annotations() map[string]map[string]string { return nil }
 
 type vfSrvState struct {
